@@ -365,17 +365,17 @@ Lemma Lex0_where : Lex0 (fx "WHERE " [Wd "WHERE"]). Proof. lex0_fixed. Qed.
 Lemma Lex0_space : Lex0 (fx " " []). Proof. lex0_fixed. Qed.
 Lemma Lex0_comma : Lex0 comma. Proof. lex0_fixed. Qed.
 
-Lemma cloop_ok rec (Hrec : Rec rec) : forall (n : nat) (cj term acc : out) (first : bool) (ts : list etok),
+Lemma cloop_ok fixd rec (Hrec : Rec rec) : forall (n : nat) (cj term acc : out) (first : bool) (cnt : nat) (ts : list etok),
   Lex0 cj -> starts_sep (fst cj) = true -> Seg term ->
-  (if first then Lex0 acc else Seg acc) -> toks_ok ts -> Q (cloop rec n cj term acc first ts).
+  (if first then Lex0 acc else Seg acc) -> toks_ok ts -> Q (cloop fixd rec n cj term acc first cnt ts).
 Proof.
   unfold Rec, Q in *.
-  induction n as [|n IH]; intros cj term acc first ts Hc Hcs Ht Ha Hts o ts' H; cbn [cloop] in H; [discriminate|].
+  induction n as [|n IH]; intros cj term acc first cnt ts Hc Hcs Ht Ha Hts o ts' H; cbn [cloop] in H; [discriminate|].
   destruct (is_comma ts) as [ts1|] eqn:Ec.
   - pose proof (is_next_ok _ _ _ _ Ec Hts) as H1.
     destruct (rec ts1) as [[value ts2]| |] eqn:Er; try discriminate.
     destruct (Hrec ts1 H1 value ts2 Er) as [Hv H2].
-    refine (IH _ _ _ false _ Hc Hcs Ht _ H2 o ts' H).
+    refine (IH _ _ _ false _ _ Hc Hcs Ht _ H2 o ts' H).
     assert (Hrest : Seg (fx "POSITION(" [Wd "POSITION"; Op "("] +++ value +++ fx " IN " [Wd "IN"] +++ term
                          +++ fx ") > 0" [Op ")"; Op ">"; TNum [48]])).
     { apply Lex0_Seg_app; [apply Lex0_position|]. apply Seg_Seg_app; [exact Hv|reflexivity|].
@@ -385,7 +385,9 @@ Proof.
     + apply Seg_Seg_app; [exact Ha| |].
       * cbn [oapp fst]. apply starts_sep_app, Hcs.
       * apply Lex0_Seg_app; [exact Hc|exact Hrest].
-  - inversion H; subst. split; [|exact Hts]. destruct first; [apply Lex0_Seg|]; exact Ha.
+  - assert (Hacc : Seg acc) by (destruct first; [apply Lex0_Seg|]; exact Ha).
+    destruct (fixd && Nat.leb 2 cnt); inversion H; subst; (split; [|exact Hts]); [|exact Hacc].
+    apply Lex0_Seg_app; [apply Lex0_lp|]. apply Lex0_Seg. apply Seg_Lex0_app; [exact Hacc|reflexivity|apply Lex0_rp].
 Qed.
 
 Lemma dloop_ok rec (Hrec : Rec rec) : forall (n : nat) (infix : out) (is_eq list_ok : bool) (count : nat) (acc term : out) (ts : list etok),
@@ -437,9 +439,9 @@ Proof.
     destruct (in_list (go_upper (sp op2)) ["CONTAINS"%string; "HAS"%string; "HASANY"%string; "CONTAINSALL"%string; "HASALL"%string]).
     + destruct (rec t3) as [[term t4]| |] eqn:Er; try discriminate.
       destruct (Hrec t3 Ht3 term t4 Er) as [Hterm Ht4].
-      match type of H with match cloop ?r ?n ?c ?t ?a ?f ?s with _ => _ end = _ =>
-        destruct (cloop r n c t a f s) as [[r5 t5]| |] eqn:Ecl; try discriminate;
-        assert (Hq : Q (cloop r n c t a f s))
+      match type of H with match cloop ?fx ?r ?n ?c ?t ?a ?f ?cn ?s with _ => _ end = _ =>
+        destruct (cloop fx r n c t a f cn s) as [[r5 t5]| |] eqn:Ecl; try discriminate;
+        assert (Hq : Q (cloop fx r n c t a f cn s))
       end.
       { apply cloop_ok; try assumption; [destruct (in_list _ _); [apply Lex0_and|apply Lex0_or]
                                         |destruct (in_list _ _); reflexivity|apply Lex0_onil]. }
